@@ -18,6 +18,13 @@ Definition qfree (l : str) : bool := lacks QUOTE l.
 (** [isq d]: a non-empty string of double-quote characters -- both dialects' delimiters *)
 Definition isq (d : str) : Prop := d <> [] /\ Forall (fun c => c = QUOTE) d.
 
+(** the two quoting dialects: doubled quotes (MrPhoenixProtocol), single quotes (MrProtocol) *)
+Definition dialect (d : str) : Prop := d = DELIM2 \/ d = DELIM1.
+
+(** protocol key and the delimiter it selects *)
+Definition prot_dialect (pkey d : str) : Prop :=
+  (pkey = K_MrPhoenixProtocol /\ d = DELIM2) \/ (pkey = K_MrProtocol /\ d = DELIM1).
+
 (** ------------------------------------------------------------------ rendering a line *)
 
 (** blanks, then an optional comment introduced by '#' *)
@@ -102,6 +109,13 @@ Fixpoint key_in (k : str) (l : list str) : bool :=
 (** the dict obtained by executing the assignments left to right, starting from [d0] *)
 Definition assign_all (l : list (str * pval)) (d0 : dict) : dict :=
   fold_left (fun d kv => dict_set (fst kv) (snd kv) d) l d0.
+
+(** first-insertion order of a sequence of keys, continuing after the keys [seen] so far *)
+Fixpoint first_keys (l : list str) (seen : list str) : list str :=
+  match l with
+  | [] => seen
+  | k :: t => first_keys t (if key_in k seen then seen else seen ++ [k])
+  end.
 
 (** the assignment lines among the parse results (None = blank or comment-only line) *)
 Fixpoint somes {A} (l : list (option A)) : list A :=
